@@ -254,8 +254,12 @@ func checkVerbose(c *core.Ctx, t *gen.Node, s subject, msg string) {
 			}
 		case strings.HasSuffix(l.GoType, ".unimplementedError"):
 			miss("unimplemented", "unimplemented")
-			miss("issue-url", tok(l.Link[0]))
-			miss("issue-detail", tok(l.Link[1]))
+			if l.Link[0] != "" {
+				miss("issue-url", tok(l.Link[0]))
+			}
+			if l.Link[1] != "" {
+				miss("issue-detail", tok(l.Link[1]))
+			}
 		case strings.HasSuffix(l.GoType, ".withTelemetry"):
 			miss("keys", "keys: [")
 			for _, k := range l.Keys {
